@@ -11,7 +11,8 @@ def registry : List Obj := [
   pureObj purePow,
   pureObj pureRpc,
   pureObj purePool,
-  pureObj pureRewards
+  pureObj pureRewards,
+  mkObj (⟨[], none⟩ : ZV.Pool.PState) poolStep
 ]
 
 end ZV.Driver
